@@ -208,7 +208,8 @@ func vSchedReplay(c *vCtx, prop string, scns []vScn, raw json.RawMessage) {
 		}
 		root, judge := scn.build()
 		res := vsched.Run(vsched.Options{Prefix: cs.Choices, Horizon: scn.horizon}, root)
-		_, bad := judge(res)
+		outcome, bad := judge(res)
+		c.note("replay outcome: %s | %s | now=%v", outcome, res.Summary(), res.Now)
 		for _, b := range bad {
 			c.violation(prop+"|"+b.sig+"|scn="+scn.name, fmt.Sprintf("scenario %s, schedule %v: %s", scn.name, res.Choices(), b.msg), cs)
 		}
